@@ -1,4 +1,5 @@
 import SpecterModel.C01.Drv
+import SpecterModel.C02.Drv
 import SpecterModel.C03.Drv
 import SpecterModel.C05.Drv
 import SpecterModel.C06.Drv
@@ -50,6 +51,7 @@ import SpecterModel.C51.Drv
 def main (args : List String) : IO UInt32 := do
   match args with
   | ["C01"] => do Specter.C01.main; return 0
+  | ["C02"] => do Specter.C02.main; return 0
   | ["C03"] => do Specter.C03.main; return 0
   | ["C05"] => do Specter.C05.main; return 0
   | ["C06"] => do Specter.C06.main; return 0
